@@ -35,7 +35,7 @@ Proof.
 Qed.
 Print Assumptions C13_current_refuted_alternatives.
 
-(* ---- persistence of the deleted-id table (finding C13-drop-lost-on-crash): with today's DROP SERIES ([trun false true]: the ids are
+(* ---- persistence of the deleted-id table (finding C13-drop-lost-on-crash): with today's DROP SERIES ([trun false true true]: the ids are
    in the in-memory set and in the table's raw items when the statement is acknowledged, in a part on disk only after the table's
    next flush) a restart right after the drop brings the dropped series back - the system model then returns a row the reference
    does not hold. Database 1, policy 1, measurement 5, series host=a (stamp 100) and host=b (101). *)
@@ -45,7 +45,7 @@ Definition crash_ops : list top :=
    TDropSeries 1 1 5 (Some (Atom 1 Eq 1)); TRestart 1 1].
 Theorem C13_drop_lost_on_crash_current_refuted :
   exists (am : N -> N -> bool) (os : list top) (x : orow),
-    In x (tread am (trun false true am t0 os) 1 1 5 None) /\ ~ In x (sread am (srun am s0 os) 1 1 5 None).
+    In x (tread am (trun false true true am t0 os) 1 1 5 None) /\ ~ In x (sread am (srun am s0 os) 1 1 5 None).
 Proof.
   exists (fun _ _ => false), crash_ops, ([(1, 1)], 10, 7, 100). vm_compute. split.
   - left. reflexivity.
@@ -57,7 +57,7 @@ Example C13_drop_survives_after_table_flush_current :
   let am := fun (_ _ : N) => false in
   let os := [TCreateDB 1; TCreateRP 1 1; TWrite 1 1 5 [(1, 1)] 10 7 100; TWrite 1 1 5 [(1, 2)] 10 8 101; TFlush 1 1;
              TDropSeries 1 1 5 (Some (Atom 1 Eq 1)); TSync 1 1; TRestart 1 1] in
-  tread am (trun false true am t0 os) 1 1 5 None = sread am (srun am s0 os) 1 1 5 None.
+  tread am (trun false true true am t0 os) 1 1 5 None = sread am (srun am s0 os) 1 1 5 None.
 Proof. vm_compute. reflexivity. Qed.
 
 (* ---- finding C13-drop-ignored-by-new-index: today an index created after the policy's deleted-id table exists is not wired to
@@ -87,14 +87,14 @@ Proof. exists (fun i => i =? 2), [(0, [1; 2]); (0, [2; 1])]. vm_compute. repeat 
 Print Assumptions C13_purge_current_refuted.
 
 (* ---- finding C13-dropped-rows-replayed-from-wal: today DROP SERIES leaves the rows written before it in the memtable and in the
-   WAL ([trun _ false]); after a crash the WAL replay looks their series keys up like new writes, the dropped id does not count,
-   and the rows come back under a fresh series id - even when the drop itself is durable ([trun true _], or [TSync] before the crash) *)
+   WAL ([trun _ false _]); after a crash the WAL replay looks their series keys up like new writes, the dropped id does not count,
+   and the rows come back under a fresh series id - even when the drop itself is durable ([trun true _ _], or [TSync] before the crash) *)
 Definition wal_ops : list top :=
   [TCreateDB 1; TCreateRP 1 1; TWrite 1 1 5 [(1, 1)] 10 7 100; TWrite 1 1 5 [(1, 2)] 10 8 101;
    TDropSeries 1 1 5 (Some (Atom 1 Eq 1)); TSync 1 1; TRestart 1 1].
 Theorem C13_dropped_rows_replayed_from_wal_current_refuted :
   exists (am : N -> N -> bool) (os : list top) (x : orow),
-    In x (tread am (trun true false am t0 os) 1 1 5 None) /\ In x (tread am (trun false false am t0 os) 1 1 5 None) /\
+    In x (tread am (trun true false true am t0 os) 1 1 5 None) /\ In x (tread am (trun false false true am t0 os) 1 1 5 None) /\
     ~ In x (sread am (srun am s0 os) 1 1 5 None).
 Proof.
   exists (fun _ _ => false), wal_ops, ([(1, 1)], 10, 7, 100). vm_compute. repeat split.
@@ -118,3 +118,21 @@ Theorem C13_phases_unguarded_finalisation_refuted :
   exists (os : list pstep) (x : N), In x (pvisible (prun false (p0 1) os)) /\ x <> ps_inc (prun false (p0 1) os).
 Proof. exists [PCreate; PWrite 0; PMark; PFinalize; PCreate], 1. vm_compute. split; [left; reflexivity | discriminate]. Qed.
 Print Assumptions C13_phases_unguarded_finalisation_refuted.
+
+(* ---- the same finding inside the tree model ([trun _ _ false]: a new index is not wired): series host=a at time 10 (index group
+   0) is dropped - the table is created and index 0 wired; host=b is written at time 700000 (a new index group) and dropped: the ids
+   are recorded, the new index consults nothing, every read still returns b; a restart wires the index *)
+Definition newidx_ops : list top :=
+  [TCreateDB 1; TCreateRP 1 1; TWrite 1 1 5 [(1, 1)] 10 7 100; TFlush 1 1; TDropSeries 1 1 5 (Some (Atom 1 Eq 1));
+   TWrite 1 1 5 [(1, 2)] 700000 8 101; TFlush 1 1; TDropSeries 1 1 5 (Some (Atom 1 Eq 2))].
+Theorem C13_tree_new_index_not_wired_current_refuted :
+  exists (am : N -> N -> bool) (os : list top) (x : orow),
+    In x (tread am (trun true true false am t0 os) 1 1 5 None) /\ ~ In x (sread am (srun am s0 os) 1 1 5 None) /\
+    ~ In x (tread am (trun true true false am t0 (os ++ [TRestart 1 1])) 1 1 5 None).
+Proof.
+  exists (fun _ _ => false), newidx_ops, ([(1, 2)], 700000, 8, 101). vm_compute. repeat split.
+  - left. reflexivity.
+  - intros [].
+  - intros [].
+Qed.
+Print Assumptions C13_tree_new_index_not_wired_current_refuted.
